@@ -36,11 +36,12 @@ theorem mk_list_ok (n : Nat) (l r : List Rat) (hl : l.length = n) (hr : r.length
   have hlen : l.length = r.length := by omega
   have il := isIncreasing_of_sorted l sl
   have ir := isIncreasing_of_sorted r sr
+  have nc := no_cross l r hlen hle
   by_cases hge : lexGe l r = true
   · have e := lexGe_antisymm l r hlen hle hge
     subst e
-    simp [mk, hge, boundSteps, hl, il, bind, Except.bind]
-  · simp [mk, hlen, hge, boundSteps, hl, hr, il, ir, bind, Except.bind]
+    simp [mk, hge, boundSteps, hl, il, nc, bind, Except.bind]
+  · simp [mk, hlen, hge, boundSteps, hl, hr, il, ir, nc, bind, Except.bind]
 
 theorem neg_rev_sorted (l : List Rat) (s : l.Pairwise (· ≤ ·)) :
     (l.reverse.map (- ·)).Pairwise (· ≤ ·) := by
